@@ -577,6 +577,53 @@ def _emit_flow(name, fl):
             f"Definition {name}_dict_vars : list (list N * list (list N)) :=\n  {coq_list(dvars, '(list N * list (list N))')}.\n")
 
 
+def _call_arg_sources(fn, callee, where):
+    """For every statement `x = <callee>(ARG, ...)` / `<callee>(ARG, ...)` of fn (source order): the expression ARG was
+    assigned from -- ARG must be a plain local name whose LAST assignment before the call is a simple `ARG = <expr>` in
+    the SAME statement list with no other statement in between that mentions ARG (so nothing can have mutated or
+    re-bound it).  -> [source text of <expr>].  Anything else is a TranslateError (fail closed)."""
+    out = []
+
+    def mentions(node, name):
+        return any(isinstance(n, ast.Name) and n.id == name for n in ast.walk(node))
+
+    def has_call(node):
+        return [c for c in ast.walk(node) if isinstance(c, ast.Call) and ast.unparse(c.func) == callee]
+
+    def lists(node):
+        for f in ("body", "orelse", "finalbody"):
+            b = getattr(node, f, None)
+            if isinstance(b, list) and b and isinstance(b[0], ast.stmt):
+                yield b
+        for h in getattr(node, "handlers", []) or []:
+            yield h.body
+
+    def visit(stmts):
+        for i, st in enumerate(stmts):
+            compound = isinstance(st, (ast.If, ast.For, ast.AsyncFor, ast.While, ast.Try, ast.With, ast.AsyncWith))
+            if compound:
+                heads = [getattr(st, "test", None), getattr(st, "iter", None)] + [it.context_expr for it in getattr(st, "items", [])]
+                for h in heads:
+                    need(h is None or not has_call(h), f"{where}: {callee} inside the head of a compound statement (line {st.lineno})")
+                for b in lists(st):
+                    visit(b)
+                continue
+            for c in sorted(has_call(st), key=lambda c: (c.end_lineno, c.end_col_offset)):
+                need(c.args and isinstance(c.args[0], ast.Name), f"{where}: first argument of {callee} at line {c.lineno} is not a local name")
+                name = c.args[0].id
+                src_expr = None
+                for j in range(i - 1, -1, -1):
+                    pj = stmts[j]
+                    if isinstance(pj, ast.Assign) and len(pj.targets) == 1 and isinstance(pj.targets[0], ast.Name) and pj.targets[0].id == name:
+                        src_expr = ast.unparse(pj.value)
+                        break
+                    need(not mentions(pj, name), f"{where}: `{name}` is used between its assignment and {callee} (line {pj.lineno})")
+                need(src_expr is not None, f"{where}: no assignment of `{name}` before {callee} at line {c.lineno} in the same block")
+                out.append(src_expr)
+    visit(_strip_doc(fn.body))
+    return out
+
+
 def _gen_exnflow(src):
     out = [HEADER, "From OV Require Import Tools.ExnFlowLang.\n\n"]
     helpers = []
@@ -588,6 +635,22 @@ def _gen_exnflow(src):
         need(fl.returns, f"{cls}.execute has no return")
         out.append(f"(* ---- {cls}.execute ({rel}) ---- *)\n")
         out.append(_emit_flow(f"flow_{short}", fl))
+        if short == "eject":
+            # what json.dumps is applied to: (ordinal of the json.dumps site, source of the expression its argument was
+            # assigned from).  ExnFlow.benign_sites whitelists json.dumps#0 BECAUSE this is _ast_to_dict(...) (C14_dict_native)
+            args = _call_arg_sources(fn, "json.dumps", f"{cls}.execute")
+            need(len(args) == sum(1 for _, c, _ in fl.sites if c == "json.dumps"), f"{cls}.execute: json.dumps sites and argument sources disagree")
+            for nm in ("_ast_to_dict", "_convert_value", "_convert_block"):
+                find_def(mod, nm)     # exactly one module-level def ...
+                for n in ast.walk(mod):   # ... and never re-bound / imported under that name
+                    if isinstance(n, (ast.Import, ast.ImportFrom)):
+                        need(all((a.asname or a.name) != nm for a in n.names), f"{rel}: {nm} is also imported")
+                    if isinstance(n, (ast.Assign, ast.AnnAssign, ast.AugAssign)):
+                        tg = n.targets if isinstance(n, ast.Assign) else [n.target]
+                        need(all(not (isinstance(t, ast.Name) and t.id == nm) for t in tg), f"{rel}: {nm} is re-bound")
+            items = [f"({k}, {coq_str(a)})" for k, a in enumerate(args)]
+            out.append("(* argument provenance of the json.dumps sites of EjectTool.execute *)\n")
+            out.append(f"Definition flow_eject_json_dumps_args : list (N * list N) :=\n  {coq_list(items, '(N * list N)')}.\n")
         # helper envelopes used in returns
         for _, shape in fl.returns:
             if shape.startswith("helper:"):
@@ -666,10 +729,17 @@ def _mutations():
         ("M1 validate: try around parse_with_warnings removed", "mcp/validate.py", untry("parse_with_warnings(content)"), "validate_only_escape_is_path_exists"),
         ("M2 write: try around tokenize removed", "mcp/write.py", untry("tokenize(parse_input)"), "escapes_are_the_known_ones"),
         ("M3 compile_grammar: try around parse removed", "mcp/compile_grammar.py", untry("doc = parse(content)"), "escapes_are_the_known_ones"),
-        ("M4 eject: json.dumps wrapped in try (defect fixed)", "mcp/eject.py",
-         rep("            output = json.dumps(data, indent=2, ensure_ascii=False)\n",
-             "            try:\n                output = json.dumps(data, indent=2, ensure_ascii=False)\n"
-             "            except TypeError:\n                output = ''\n"), "escapes_are_the_known_ones"),
+        ("M4 eject: json.dumps no longer applied to the output of _ast_to_dict", "mcp/eject.py",
+         rep("            data = _ast_to_dict(result.filtered_doc)\n            output = json.dumps(",
+             "            data = dict(result.filtered_doc.meta)\n            output = json.dumps("), "eject_json_dumps_argument"),
+        ("M4b eject: a second json.dumps (of the raw META) outside any try", "mcp/eject.py",
+         rep("            data = _ast_to_dict(result.filtered_doc)\n            output = json.dumps(data, indent=2, ensure_ascii=False)\n",
+             "            data = _ast_to_dict(result.filtered_doc)\n            output = json.dumps(data, indent=2, ensure_ascii=False)\n"
+             "            meta = result.filtered_doc.meta\n            output += json.dumps(meta)\n"), "eject_only_escape_is_gbnf_contract"),
+        ("M4c eject: the converted dict is touched between _ast_to_dict and json.dumps", "mcp/eject.py",
+         rep("            data = _ast_to_dict(result.filtered_doc)\n            output = json.dumps(",
+             "            data = _ast_to_dict(result.filtered_doc)\n            data['RAW'] = result.filtered_doc\n            output = json.dumps("),
+         "TranslateError"),
         ("M5 validate: a return without status", "mcp/validate.py",
          rep("        if content is None and file_path is None:\n",
              "        if content == 'x':\n            return {'canonical': content}\n        if content is None and file_path is None:\n"),
